@@ -73,6 +73,17 @@ pub fn judge_admitted(
         ));
     }
 
+    if model.unsettled.contains_key(&t.id) {
+        let forgot = model.cache_forgot(&Key::Tx(t.id), cap);
+        out.push(adm(
+            format!("c19 admitted_duplicate_id state=handed_out_or_preconfirmed cache_forgot={forgot}"),
+            None,
+            format!(
+                "insert of {me} returned Inserted although this very transaction was handed out for a block / preconfirmed and is not settled (spent-input cache capacity {cap}, its entry pushed out of the cache: {forgot})"
+            ),
+        ));
+    }
+
     for (u, f) in &t.coins {
         if let Some(p) = pooled.txs.get(u.tx_id()) {
             match p.coin_output(u.output_index()) {
@@ -122,7 +133,7 @@ pub fn judge_admitted(
         if let Some(holder) = model.handed_out_coin(u) {
             let forgot = model.cache_forgot(&Key::Coin(*u), cap);
             out.push(adm(
-                format!("c19 admitted_handed_out_input kind=coin cache_forgot={forgot}"),
+                if forgot { "c19 admitted_handed_out_input cache_forgot=true".to_string() } else { "c19 admitted_handed_out_input kind=coin cache_forgot=false".to_string() },
                 None,
                 format!(
                     "{me} admitted although its input {} was handed out with {} which is not settled (spent-input cache capacity {cap}, entry pushed out of the cache: {forgot})",
@@ -204,7 +215,7 @@ pub fn judge_admitted(
             if let Some(holder) = model.handed_out_msg(&m.nonce) {
                 let forgot = model.cache_forgot(&Key::Msg(m.nonce), cap);
                 out.push(adm(
-                    format!("c19 admitted_handed_out_input kind=message cache_forgot={forgot}"),
+                    if forgot { "c19 admitted_handed_out_input cache_forgot=true".to_string() } else { "c19 admitted_handed_out_input kind=message cache_forgot=false".to_string() },
                     None,
                     format!(
                         "{me} admitted although its message {} was handed out with {} (cache capacity {cap}, pushed out: {forgot})",
@@ -354,6 +365,14 @@ pub fn is_plain(t: &TxInfo, before: &Snap, chain: &ChainState, model: &Model, cf
         }
     }
     if t.contracts.iter().any(|c| !chain.contracts.contains(c)) {
+        return false;
+    }
+    // a pooled creator of one of its contracts makes it a dependent transaction
+    if before
+        .txs
+        .values()
+        .any(|p| p.created_contracts().any(|x| t.contracts.contains(&x)))
+    {
         return false;
     }
     if before.txs.values().any(|k| conflict(t, k).is_some()) {
